@@ -1,6 +1,7 @@
 (** Correspondence for C08: the tables, foreign keys, JSON checks and composite types parsed from the
     real SQL script against the model. *)
 From Coq Require Import List String Ascii ZArith Bool Arith NArith.
+From GM Require Corr.AnaCross.
 From GM Require Import Base.Result Facts.GoFacts Facts.Ana Model.Enums Model.Fields Model.Classify Model.SqlTypes.
 Import ListNotations.
 Local Open Scope string_scope.
@@ -78,6 +79,6 @@ Definition chk (c : c8_case) : bool :=
 Fixpoint mism_from (n : N) (cases : list c8_case) : list N :=
   match cases with
   | [] => []
-  | c :: r => if chk c then mism_from (N.succ n) r else n :: mism_from (N.succ n) r
+  | c :: r => if AnaCross.ana_cross (c8_prog c) (c8_ana c) && chk c then mism_from (N.succ n) r else n :: mism_from (N.succ n) r
   end.
 Definition mismatches := mism_from 0%N.
